@@ -409,7 +409,7 @@ fn c05_o4a_ack_counter_256() {
 }
 
 //@ ob: C05.O4c
-//@ tier: thorough
+//@ tier: off
 //@ cap: 2400
 //@ mem: 28
 //@ standins: tracing
